@@ -86,7 +86,7 @@ condition, pop on `remain == 0`, header, the wrapper branch with `extractOffset`
 `unwindStack` (↔ `Pull.markRead` / `unwind`) -/
 theorem pull_model_text :
     Gen.decoderFacts.msrReadMessage = "{ if $r.empty { $1 = RequestTimedOut return } for { must($r.readHeader()) if $r.header.magic != 2 || $r.count != 0 { break } } switch $r.header.magic { case 0, 1: $2, $3, $4, $1 = $r.readMessageV1($5, $6, $7) $8 = -1 case 2: $2, $8, $3, $4, $1 = $r.readMessageV2($5, $6, $7) default: $1 = $r.header.badMagic() } return }" ∧
-    Gen.decoderFacts.v1Loop = "{ for $r.readerStack != nil { if $r.remain == 0 { $r.readerStack = $r.parent continue } must($r.readHeader()) $1 = $r.header.firstOffset $2 = $r.header.v1.timestamp var $3 CompressionCodec $3 = must($r.header.compression()) if $3 != nil { must($r.discardN(4)) $r.decompressed.Reset() must($r.readBytesWith(func($4 *bufio.Reader, $5 int, $6 int) ($7 int, $8 error) { })) $1 = must(extractOffset($1, $r.decompressed.Bytes())) $r.markRead() $r.readerStack = &readerStack{reader: bufio.NewReaderSize($r.decompressed, 0), remain: $r.decompressed.Len(), base: $1, parent: $r.readerStack} continue } $1 += $r.base if $1 < $9 { must($r.discardBytes()) must($r.discardBytes()) $r.markRead() continue } must($r.readBytesWith($10)) must($r.readBytesWith($11)) $r.markRead() return } $8 = errShortRead return }" ∧
+    Gen.decoderFacts.v1Loop = "{ for $r.readerStack != nil { if $r.remain == 0 { $r.readerStack = $r.parent continue } must($r.readHeader()) $1 = $r.header.firstOffset $2 = $r.header.v1.timestamp $3 = must($r.header.compression()) if $3 != nil { must($r.discardN(4)) $r.decompressed.Reset() must($r.readBytesWith(func($4 *bufio.Reader, $5 int, $6 int) ($7 int, $8 error) { })) $1 = must(extractOffset($1, $r.decompressed.Bytes())) $r.markRead() $r.readerStack = &readerStack{reader: bufio.NewReaderSize($r.decompressed, 0), remain: $r.decompressed.Len(), base: $1, parent: $r.readerStack} continue } $1 += $r.base if $1 < $9 { must($r.discardBytes()) must($r.discardBytes()) $r.markRead() continue } must($r.readBytesWith($10)) must($r.readBytesWith($11)) $r.markRead() return } $8 = errShortRead return }" ∧
     Gen.decoderFacts.msrMarkRead = "{ if $r.count == 0 { panic(\"markRead: negative count\") } $r.count-- $r.unwindStack() }" ∧
     Gen.decoderFacts.msrUnwind = "{ for $r.count == 0 { if $r.remain == 0 { if $r.parent != nil { $r.readerStack = $r.parent continue } } break } }" :=
   ⟨rfl, rfl, rfl, rfl⟩
@@ -96,7 +96,7 @@ read.go `peekRead`, `readVarInt`, `readNewBytes`, `readBytesWith`, `readArrayLen
 message_reader.go `runFunc`,
 `readMessageHeader`, `readMessageV2` — normalised like `pull_model_text` -/
 theorem byte_model_text :
-    Gen.decoderFacts.byteFuncs = "peekRead { if $1 > $2 { return $2, errShortRead } $3, $4 := $5.Peek($1) if $4 != nil { return $2, $4 } $6($3) return discardN($5, $2, $1) } ;; readVarInt { $1, _ := $2.Peek($2.Buffered()) $3 := uint64(0) $4 := uint(0) for { if len($1) > $5 { $1 = $1[:$5] } for $6, $7 := range $1 { if $7 < 0x80 { $3 |= uint64($7) << $4 *$8 = int64($3>>1) ^ -(int64($3) & 1) $9, $10 := $2.Discard($6 + 1) return $5 - $9, $10 } $3 |= uint64($7&0x7f) << $4 $4 += 7 } $9, _ := $2.Discard(len($1)) $5 -= $9 if $5 == 0 { return 0, errShortRead } if _, $10 := $2.Peek(1); $10 != nil { if errors.Is($10, io.EOF) { $10 = errShortRead } return $5, $10 } $1, _ = $2.Peek($2.Buffered()) } } ;; readNewBytes { var $1 error var $2 []byte var $3 bool if $4 > 0 { if $5 < $4 { $4 = $5 $3 = true } $2 = make([]byte, $4) $4, $1 = io.ReadFull($6, $2) $2 = $2[:$4] $5 -= $4 if $1 == nil && $3 { $1 = errShortRead } } return $2, $5, $1 } ;; readBytesWith { var $1 error var $2 int if $3, $1 = readArrayLen($4, $3, &$2); $1 != nil { return $3, $1 } if $2 > $3 { return $3, errShortRead } return $5($4, $3, $2) } ;; readArrayLen { var $1 error var $2 int32 if $3, $1 = readInt32($4, $3, &$2); $1 != nil { return $3, $1 } *$5 = int($2) return $3, nil } ;; discardN { var $1 error if $2 <= $3 { $2, $1 = $4.Discard($2) } else { $2, $1 = $4.Discard($3) if $1 == nil { $1 = errShortRead } } return $3 - $2, $1 } ;; discardBytes { return readBytesWith($1, $2, func($1 *bufio.Reader, $2 int, $3 int) (int, error) { }) } ;; runFunc { var $1 int64 must($r.readVarInt(&$1)) $r.remain = must($2($r.reader, $r.remain, int($1))) return } ;; readMessageHeader { var $1 int64 must($r.readVarInt(&$1)) $2.Key = must($r.readNewString(int($1))) var $3 int64 must($r.readVarInt(&$3)) $2.Value = must($r.readNewBytes(int($3))) return nil } ;; readMessageV2 { must($r.readHeader()) if $r.count == int($r.header.v2.count) { var $1 CompressionCodec $1 = must($r.header.compression()) if $1 != nil { $2 := int($r.header.length - 49) if $2 > $r.remain { $3 = errShortRead return } if $2 < 0 { $3 = fmt.Errorf(\"batch remain < 0 (%d)\", $2) return } $r.decompressed.Reset() $r.decompressed.Grow(4 * $2) $4 := io.LimitedReader{R: $r.reader, N: int64($2)} $5 := $1.NewReader(&$4) _, $3 = $r.decompressed.ReadFrom($5) $5.Close() if $3 != nil { return } $r.remain -= $2 - int($4.N) $r.readerStack = &readerStack{reader: bufio.NewReaderSize($r.decompressed, 0), remain: $r.decompressed.Len(), base: -1, parent: $r.readerStack, header: $r.header, count: $r.count} $r.readerStack.parent.count = 0 } } $6 := $r.remain var $7 int64 must($r.readVarInt(&$7)) $8 := $6 - $r.remain var $9 int8 must($r.readInt8(&$9)) var $10 int64 must($r.readVarInt(&$10)) $11 = $r.header.v2.firstTimestamp + $10 var $12 int64 must($r.readVarInt(&$12)) $13 = $r.header.firstOffset + $12 must($r.runFunc($14)) must($r.runFunc($15)) var $16 int64 must($r.readVarInt(&$16)) if $16 > 0 { $17 = make([]Header, $16) for $18 := range $17 { must($r.readMessageHeader(&$17[$18])) } } $19 = $r.header.firstOffset + int64($r.header.v2.lastOffsetDelta) $r.lengthRemain -= int($7) + $8 if $r.count == 1 { $r.batchEnd = $19 + 1 } $r.markRead() return }" := rfl
+    Gen.decoderFacts.byteFuncs = "peekRead { if $1 > $2 { return $2, errShortRead } $3, $4 := $5.Peek($1) if $4 != nil { return $2, $4 } $6($3) return discardN($5, $2, $1) } ;; readVarInt { $1, _ := $2.Peek($2.Buffered()) $3 := uint64(0) $4 := uint(0) for { if len($1) > $5 { $1 = $1[:$5] } for $6, $7 := range $1 { if $7 < 0x80 { $3 |= uint64($7) << $4 *$8 = int64($3>>1) ^ -(int64($3) & 1) $9, $10 := $2.Discard($6 + 1) return $5 - $9, $10 } $3 |= uint64($7&0x7f) << $4 $4 += 7 } $9, _ := $2.Discard(len($1)) $5 -= $9 if $5 == 0 { return 0, errShortRead } if _, $10 := $2.Peek(1); $10 != nil { if errors.Is($10, io.EOF) { $10 = errShortRead } return $5, $10 } $1, _ = $2.Peek($2.Buffered()) } } ;; readNewBytes { if $1 > 0 { if $2 < $1 { $1 = $2 $3 = true } $4 = make([]byte, $1) $1, $5 = io.ReadFull($6, $4) $4 = $4[:$1] $2 -= $1 if $5 == nil && $3 { $5 = errShortRead } } return $4, $2, $5 } ;; readBytesWith { if $1, $2 = readArrayLen($3, $1, &$4); $2 != nil { return $1, $2 } if $4 > $1 { return $1, errShortRead } return $5($3, $1, $4) } ;; readArrayLen { if $1, $2 = readInt32($3, $1, &$4); $2 != nil { return $1, $2 } *$5 = int($4) return $1, nil } ;; discardN { if $1 <= $2 { $1, $3 = $4.Discard($1) } else { $1, $3 = $4.Discard($2) if $3 == nil { $3 = errShortRead } } return $2 - $1, $3 } ;; discardBytes { return readBytesWith($1, $2, func($1 *bufio.Reader, $2 int, $3 int) (int, error) { }) } ;; runFunc { must($r.readVarInt(&$1)) $r.remain = must($2($r.reader, $r.remain, int($1))) return } ;; readMessageHeader { must($r.readVarInt(&$1)) $2.Key = must($r.readNewString(int($1))) must($r.readVarInt(&$3)) $2.Value = must($r.readNewBytes(int($3))) return nil } ;; readMessageV2 { must($r.readHeader()) if $r.count == int($r.header.v2.count) { $1 = must($r.header.compression()) if $1 != nil { $2 := int($r.header.length - 49) if $2 > $r.remain { $3 = errShortRead return } if $2 < 0 { $3 = fmt.Errorf(\"batch remain < 0 (%d)\", $2) return } $r.decompressed.Reset() $r.decompressed.Grow(4 * $2) $4 := io.LimitedReader{R: $r.reader, N: int64($2)} $5 := $1.NewReader(&$4) _, $3 = $r.decompressed.ReadFrom($5) $5.Close() if $3 != nil { return } $r.remain -= $2 - int($4.N) $r.readerStack = &readerStack{reader: bufio.NewReaderSize($r.decompressed, 0), remain: $r.decompressed.Len(), base: -1, parent: $r.readerStack, header: $r.header, count: $r.count} $r.readerStack.parent.count = 0 } } $6 := $r.remain must($r.readVarInt(&$7)) $8 := $6 - $r.remain must($r.readInt8(&$9)) must($r.readVarInt(&$10)) $11 = $r.header.v2.firstTimestamp + $10 must($r.readVarInt(&$12)) $13 = $r.header.firstOffset + $12 must($r.runFunc($14)) must($r.runFunc($15)) must($r.readVarInt(&$16)) if $16 > 0 { $17 = make([]Header, $16) for $18 := range $17 { must($r.readMessageHeader(&$17[$18])) } } $19 = $r.header.firstOffset + int64($r.header.v2.lastOffsetDelta) $r.lengthRemain -= int($7) + $8 if $r.count == 1 { $r.batchEnd = $19 + 1 } $r.markRead() return }" := rfl
 
 /-! ## 0. The defects of the pinned code (`Variant.legacy`), kept as theorems about the legacy model
 
